@@ -1420,7 +1420,7 @@ static int cfg_parse_internal(cfg_t *cfg, int level, int force_state, cfg_opt_t 
 				}
 
 				/* Not found, is it a dynamic key-value section? */
-				if (is_set(CFGF_KEYSTRVAL, cfg->flags)) {
+				if (is_set(CFGF_KEYSTRVAL, cfg->flags) && *cfg_yylval) {
 					opt = cfg_addopt(cfg, cfg_yylval);
 					if (!opt)
 						goto error;
